@@ -76,7 +76,12 @@ func runC17Live(cs CaseSpec) *CaseResult {
 	res := newResult(cs)
 	mode := cs.Str("mode", "lonely-self")
 	limit := int(cs.I("limit", 5))
-	tune := func(c *config.Config) { c.SuspendLimit = limit }
+	tune := func(c *config.Config) {
+		c.SuspendLimit = limit
+		if cs.I("pendingjoin", 0) == 1 {
+			c.JoinTimeout = 6 * time.Second
+		}
+	}
 	seed := cs.Seed*1000 + int64(cs.Index)
 	var watched []*liveNode
 	var all []*liveNode
@@ -150,18 +155,52 @@ func runC17Live(cs CaseSpec) *CaseResult {
 			ps = append(ps, mkPeer(kk.K, addr, fmt.Sprintf("c17live%d", i)))
 		}
 		for i := 0; i < n-k; i++ {
-			l, err := newLiveNodeWith(seed, i, keys[i], trs[i], ps[i], ps, ps, tune)
+			t := tune
+			pusher := cs.I("pendingjoin", 0) == 1 && n-k >= 2 && i == n-k-1
+			if pusher {
+				// one running validator never gives up (huge limit): it keeps pushing
+				// events at the others after they decided to suspend themselves
+				t = func(c *config.Config) { c.SuspendLimit = 1000000 }
+			}
+			l, err := newLiveNodeWith(seed, i, keys[i], trs[i], ps[i], ps, ps, t)
 			if err != nil {
 				res.inconclusive(err.Error())
 				return res
 			}
 			all = append(all, l)
-			watched = append(watched, l)
+			if !pusher {
+				watched = append(watched, l)
+			}
 		}
 		for _, l := range all {
 			l.Node.RunAsync(true)
 		}
 		res.count("live_validators_never_started", int64(k))
+	}
+	if cs.I("pendingjoin", 0) == 1 {
+		// a join request that cannot complete (no quorum) is pending at every watched
+		// node: its handler is parked until the join timeout while the node decides
+		// to suspend itself
+		for i, l := range watched {
+			jk := &SimKey{detKey(seed, "c17live-joiner", i)}
+			jp := mkPeer(jk.K, fmt.Sprintf("127.0.0.1:%d", 50+i), fmt.Sprintf("c17joiner%d", i))
+			itx := hg.NewInternalTransactionJoin(*jp)
+			if err := itx.Sign(jk.K); err != nil {
+				continue
+			}
+			jc, err := mkTransport()
+			if err != nil {
+				continue
+			}
+			target := l.Trans.LocalAddr()
+			go func() {
+				defer jc.Close()
+				var resp bnet.JoinResponse
+				jc.Join(target, &bnet.JoinRequest{InternalTransaction: itx}, &resp)
+			}()
+			res.count("live_join_requests_left_pending", 1)
+		}
+		time.Sleep(50 * time.Millisecond)
 	}
 	// feed transactions so that the watched nodes keep creating events
 	stop := make(chan struct{})
